@@ -108,6 +108,7 @@ func (m *c11Mon) afterBlock() {
 			mp[k] = v
 		}
 	}
+	sig := "endblock"
 	for _, t := range fired {
 		credit := t.Data.Credit.Amount
 		credits = credits.Add(credit)
@@ -150,6 +151,12 @@ func (m *c11Mon) afterBlock() {
 				r.Probe("c11_cap_ambiguous_zone")
 			}
 		}
+		if total.GT(sdk.NewIntFromUint64(^uint64(0))) {
+			// the tracked CU of this month do not fit a uint64 (only reachable through CU credits near
+			// 2^64): a distinct signature, the expectations stay the exact-arithmetic ones
+			sig = "endblock-tracked-cu-sum-exceeds-uint64"
+			r.Probe("c11_tracked_cu_sum_exceeds_uint64")
+		}
 		if total.GT(sdk.NewIntFromUint64(^uint64(0)).Quo(limit)) {
 			r.Probe("c11_limit_times_cu_exceeds_uint64")
 			if c11DebugHuge {
@@ -174,8 +181,8 @@ func (m *c11Mon) afterBlock() {
 		}
 	}
 	outflow := sn.subBal.Sub(s.ModuleBalance(subscriptiontypes.ModuleName)).Add(renewals)
-	r.Check(outflow.LTE(credits), "payout-exceeds-credit", "endblock", "payouts at the end of block %d moved %s out of the subscription module, the month credits of the %d payout(s) sum to %s", sn.height, outflow, len(fired), credits)
-	r.Check(outflow.GTE(zeroGone) && outflow.LTE(zeroGone.Add(paidUpper)), "payout-flow-mismatch", "endblock", "payouts at the end of block %d moved %s out of the subscription module; expected between %s (zero-CU months of removed subscriptions, to the validators pool) and %s (plus the provider shares)", sn.height, outflow, zeroGone, zeroGone.Add(paidUpper))
+	r.Check(outflow.LTE(credits), "payout-exceeds-credit", sig, "payouts at the end of block %d moved %s out of the subscription module, the month credits of the %d payout(s) sum to %s", sn.height, outflow, len(fired), credits)
+	r.Check(outflow.GTE(zeroGone) && outflow.LTE(zeroGone.Add(paidUpper)), "payout-flow-mismatch", sig, "payouts at the end of block %d moved %s out of the subscription module; expected between %s (zero-CU months of removed subscriptions, to the validators pool) and %s (plus the provider shares)", sn.height, outflow, zeroGone, zeroGone.Add(paidUpper))
 	// --- proportional: base pay recorded per provider and chain (= share before participation) ---
 	rolled := s.K.Rewards.GetIprpcRewardsCurrentId(s.Ctx) != sn.iprpcID
 	if rolled {
@@ -213,7 +220,7 @@ func (m *c11Mon) afterBlock() {
 				l, h = math.ZeroInt(), math.ZeroInt()
 			}
 			got := a.Sub(b)
-			r.Check(got.GTE(l) && got.LTE(h), "provider-share-mismatch", "endblock", "at the end of block %d the share of %s is %s, expected floor(min(credit, limit x totalCU) x cu / totalCU) summed over the payouts = %s (.. %s with the rounded cap)", sn.height, k, got, l, h)
+			r.Check(got.GTE(l) && got.LTE(h), "provider-share-mismatch", sig, "at the end of block %d the share of %s is %s, expected floor(min(credit, limit x totalCU) x cu / totalCU) summed over the payouts = %s (.. %s with the rounded cap)", sn.height, k, got, l, h)
 		}
 	}
 	// --- zero-CU months give the credit back to the live subscription ---
